@@ -1094,18 +1094,21 @@ func (c *Client) findNewPrimary(ctx context.Context, height int64, remove bool) 
 				c.witnesses = append(c.witnesses, c.primary)
 			}
 
-			// promote respondent as the new primary
-			c.logger.Debug("found new primary", "primary", c.witnesses[response.witnessIndex])
-			c.primary = c.witnesses[response.witnessIndex]
+			// the respondent is going to be the new primary
+			newPrimary := c.witnesses[response.witnessIndex]
+			c.logger.Debug("found new primary", "primary", newPrimary)
 
 			// add promoted witness to the list of witnesses to be removed
 			witnessesToRemove = append(witnessesToRemove, response.witnessIndex)
 
 			// remove witnesses marked as bad (the client must do this before we alter the witness slice and change the indexes
-			// of witnesses). Removal is done in descending order
+			// of witnesses). Removal is done in descending order. If it is refused (no witness
+			// would be left) nothing has changed: a provider that is both the primary and
+			// still among the witnesses would confirm its own headers.
 			if err := c.removeWitnesses(witnessesToRemove); err != nil {
 				return nil, err
 			}
+			c.primary = newPrimary
 
 			// return the light block that new primary responded with
 			return response.lb, nil
